@@ -76,6 +76,7 @@ class Repo:
                     raise AnalysisError(f"cannot parse {p}: {e}")
         from . import normal
         normal.undo_function_renames({name: tree for name, _, _, tree in parsed}, stats=self.normal_stats)
+        normal.normalise_private_calls({name: tree for name, _, _, tree in parsed}, stats=self.normal_stats)
         keyword_names = frozenset(k.arg for _, _, _, t in parsed for n in ast.walk(t) if isinstance(n, ast.Call) for k in n.keywords if k.arg)
         for name, p, src, tree in parsed:
             self.modules[name] = ModuleInfo(name, p, src, tree, keyword_names, self.normal_stats)
